@@ -117,7 +117,11 @@ def check_tree(system: model.System) -> List[Viol]:
             if isinstance(o.parent, model.Class) and o.kind not in methodkinds:
                 out.append((f'I4-function-in-class-kind={o.kind and o.kind.name}', f'{k!r} sits in a class but has kind {o.kind}'))
             if isinstance(o.parent, model.Module) and o.kind in methodkinds:
-                out.append((f'I4-method-in-module,kind={o.kind.name}', f'{k!r} sits in a module but has kind {o.kind}'))
+                # was it defined there, or is it a method that a re-export moved out of its class (the alias it left
+                # behind in the class tells)?
+                moved = any(isinstance(c, model.Class) and k in c._localNameToFullName_map.values() for c in allobjects.values())
+                out.append((f'I4-method-in-module,kind={o.kind.name},origin={"moved-from-class" if moved else "defined-here"}',
+                            f'{k!r} sits in a module but has kind {o.kind}'))
         if isinstance(o, model.Module):
             if o.parent is not None and not isinstance(o.parent, model.Package):
                 out.append(('I4-module-in-nonpackage', f'module {k!r} sits in {o.parent!r}'))
@@ -275,7 +279,8 @@ def check_bindings(world: Dict[str, Any], system: model.System, require: bool = 
                 d = defs[str(b[1])]
                 if route == 'local':
                     must = True
-                elif route in ('from', 'from-as'):
+                elif route in ('from', 'from-as', 'star'):
+                    # (a star import straight from the defining module binds the name just as directly)
                     org = origin.get(f'{modname}:{name}')
                     must = bool(org) and org[0] == d['module'] and d['outer'] is None and org[1] == d['name']
             else:
